@@ -304,3 +304,12 @@ def raises_something(thunk):
     except Exception:
         return True
     return False
+
+
+def route_bytes_with_router(pairs):
+    """connection path of a Forward Open: word count, the port segments of the route, then the message router (class 2, instance 1)"""
+    path = b""
+    for port, link in pairs:
+        path = path + encode_port(port, link)
+    path = path + b"\x20\x02\x24\x01"
+    return bytes([len(path) // 2]) + path
